@@ -557,6 +557,7 @@ class _ServiceBrowserBase(RecordUpdateListener):
 
     __slots__ = (
         'types',
+        '_types_by_key',
         'zc',
         '_cache',
         '_loop',
@@ -600,6 +601,9 @@ class _ServiceBrowserBase(RecordUpdateListener):
         for check_type_ in self.types:
             # Will generate BadTypeInNameException on a bad name
             service_type_name(check_type_, strict=False)
+        # Names are matched case-insensitively, callbacks
+        # get the type as the caller spelled it
+        self._types_by_key: Dict[str, str] = {type_.lower(): type_ for type_ in self.types}
         self.zc = zc
         self._cache = zc.cache
         assert zc.loop is not None
@@ -647,8 +651,12 @@ class _ServiceBrowserBase(RecordUpdateListener):
 
     def _names_matching_types(self, names: Iterable[str]) -> List[Tuple[str, str]]:
         """Return the type and name for records matching the types we are browsing."""
+        types_by_key = self._types_by_key
         return [
-            (type_, name) for name in names for type_ in self.types.intersection(cached_possible_types(name))
+            (types_by_key[key], name)
+            for name in names
+            for key in cached_possible_types(name.lower())
+            if key in types_by_key
         ]
 
     def _enqueue_callback(
@@ -688,7 +696,10 @@ class _ServiceBrowserBase(RecordUpdateListener):
                 if TYPE_CHECKING:
                     record = cast(DNSPointer, record)
                 pointer = record
-                for type_ in self.types.intersection(cached_possible_types(pointer.name)):
+                for key in cached_possible_types(pointer.key):
+                    type_ = self._types_by_key.get(key)
+                    if type_ is None:
+                        continue
                     if old_record is None:
                         self._enqueue_callback(SERVICE_STATE_CHANGE_ADDED, type_, pointer.alias)
                         self.query_scheduler.reschedule_ptr_first_refresh(pointer)
